@@ -328,7 +328,7 @@ Program gen_program(uint64_t seed, const GenParams &gp, const std::string &profi
                 } else {
                     o.kind = OP_CANCEL; o.waits.resize(np); bool stack_case = false;
                     for (int r = 0; r < np; r++) {
-                        WaitSpec &w = o.waits[r]; w.mode = rng.chance(0.3) ? 1 : rng.chance(0.25) ? 2 + (int)rng.below(2) : 0; int n = (int)rng.range(0, 3);   // incl. NC_GET_REQ_ALL / NC_PUT_REQ_ALL for (int i = 0; i < n; i++) w.slots.push_back((int)rng.below(12));
+                        WaitSpec &w = o.waits[r]; w.mode = rng.chance(0.3) ? 1 : rng.chance(0.25) ? 2 + (int)rng.below(2) : 0; int n = (int)rng.range(0, 4); for (int i = 0; i < n; i++) w.slots.push_back(rng.chance(0.2) ? -1 : (int)rng.below(12));   // modes incl. NC_GET_REQ_ALL / NC_PUT_REQ_ALL; NC_REQ_NULL entries in an id list must be skipped, not end the processing
                         // attached-buffer stack scenario: cancel (by id) a buffered put that is not the last one posted, then post another one while the later one is still pending
                         std::vector<int> bp; for (int s2 = 0; s2 < (int)f.ranks[r].reqs.size(); s2++) if (f.ranks[r].reqs[s2].live && f.ranks[r].reqs[s2].kind == K_BPUT) bp.push_back(s2);
                         if (bp.size() >= 2 && rng.chance(0.5)) { w.mode = 0; w.slots.assign(1, bp[rng.below(bp.size() - 1)]); stack_case = true; }
